@@ -52,6 +52,8 @@ type Program struct {
 	wordLists     map[string]*WordList
 	verifExempt   []string
 	bounded       *boundedStats
+	audits        []map[string]interface{}
+	selftest      []map[string]interface{}
 	groundDone    bool
 	groundObls    []*Obligation
 	listFacts     map[string]bool
